@@ -25,15 +25,15 @@ func envelopeSites(p *Prog) []envSite {
 			cc := call.Common()
 			name := ""
 			if cc.IsInvoke() {
-				name = cc.Method.Name()
+				name = N(cc.Method)
 			} else if sc := cc.StaticCallee(); sc != nil && sc.Signature.Recv() != nil {
-				name = sc.Name()
+				name = N(sc)
 			}
 			if name != "encodeEnvelope" {
 				continue
 			}
 			// skip pure delegation inside another encodeEnvelope (parameter passed through)
-			if fn.Name() == "encodeEnvelope" {
+			if N(fn) == "encodeEnvelope" {
 				continue
 			}
 			env := cc.Args[len(cc.Args)-1]
@@ -139,7 +139,7 @@ func checkEnvelopeSites(c *Ctx, ruleLen, ruleNarrow, ruleFlag string, requestSid
 	st := envT.Underlying().(*types.Struct)
 	var lengthF, comprF *types.Var
 	for i := 0; i < st.NumFields(); i++ {
-		switch st.Field(i).Name() {
+		switch N(st.Field(i)) {
 		case "length":
 			lengthF = st.Field(i)
 		case "compressed":
@@ -211,7 +211,7 @@ func checkEnvelopeSites(c *Ctx, ruleLen, ruleNarrow, ruleFlag string, requestSid
 				what = "the buffer whose Len() is announced is the one written out / installed as read source"
 			case cellLoad != nil:
 				f := LoadedField(cellLoad)
-				construct = "length=" + f.Name()
+				construct = "length=" + N(f)
 				// a bound with the same origin: int counter field store, or hardLimitReader.limit
 				ForEachInstr(fn, func(in ssa.Instruction) {
 					stt, ok := in.(*ssa.Store)
@@ -226,7 +226,7 @@ func checkEnvelopeSites(c *Ctx, ruleLen, ruleNarrow, ruleFlag string, requestSid
 					if !isIntegerLike(tf.Type()) {
 						return
 					}
-					isBoundField := tf.Name() == "limit" || strings.Contains(strings.ToLower(tf.Name()), "remaining") || strings.Contains(strings.ToLower(tf.Name()), "expecting")
+					isBoundField := N(tf) == "limit" || strings.Contains(strings.ToLower(N(tf)), "remaining") || strings.Contains(strings.ToLower(N(tf)), "expecting")
 					if !isBoundField {
 						return
 					}
@@ -236,7 +236,7 @@ func checkEnvelopeSites(c *Ctx, ruleLen, ruleNarrow, ruleFlag string, requestSid
 						}
 					}
 				})
-				what = "the byte counter / limiting reader that bounds the payload is set from the same cell (" + f.Name() + ")"
+				what = "the byte counter / limiting reader that bounds the payload is set from the same cell (" + N(f) + ")"
 			case decoded != nil:
 				construct = "length=decoded"
 				fromDecoded := func(v ssa.Value) bool {
@@ -360,7 +360,7 @@ func checkEnvelopeSites(c *Ctx, ruleLen, ruleNarrow, ruleFlag string, requestSid
 			if pt, ok := recv.Type().(*types.Pointer); ok {
 				if stt, ok := pt.Elem().Underlying().(*types.Struct); ok {
 					for i := 0; i < stt.NumFields(); i++ {
-						if stt.Field(i).Name() == "msg" && isPtrTo(stt.Field(i).Type(), RootPath, "message") {
+						if N(stt.Field(i)) == "msg" && isPtrTo(stt.Field(i).Type(), RootPath, "message") {
 							hasMsg = true
 						}
 					}
@@ -404,7 +404,7 @@ func checkEnvelopeSites(c *Ctx, ruleLen, ruleNarrow, ruleFlag string, requestSid
 					want = "reqCompression"
 				}
 				f := LoadedField(bo.X)
-				if f == nil || f.Name() != want || !PathOfHasSide(bo.X, side) {
+				if f == nil || N(f) != want || !PathOfHasSide(bo.X, side) {
 					good = false
 				}
 				under := false
